@@ -174,3 +174,997 @@ Proof.
     cbn [bind]. rewrite E3. cbn [bind]. exists rs3. split; [destruct s; reflexivity|].
     rewrite T3. cbn [p_runs with_runs]. rewrite T1, !app_nil_r. reflexivity.
 Qed.
+
+(* ================================================================== *)
+(* 1. the nodes that replace one w:t / m:t element                      *)
+(* ================================================================== *)
+Definition is_text_tag (e : einfo) : bool :=
+  (str_eqb (e_ptag e) tag_TEXT || str_eqb (e_ptag e) tag_TEXT_MATH)%bool.
+
+(* the needle occurs in the element's own text *)
+Definition hit (old : str) (e : einfo) : bool :=
+  match e_text e with Some (c :: tx) => contains old (c :: tx) | _ => false end.
+
+(* the tokens of the replacement text: one TTxt per character of each line,
+   the lines separated by the "\n" of a w:br *)
+Definition repl_toks (old new tx : str) : list tok :=
+  join_toks [TRaw 10] (map (map TTxt) (splitlines (replace old new tx))).
+
+Lemma br_of_tag e wuri : e_ptag (match br_of e wuri with AE b _ => b | AX _ => e end) = tag_BR.
+Proof. reflexivity. Qed.
+
+Lemma emit_br_of v path e wuri : emit v path (br_of e wuri) = Ok [TRaw 10].
+Proof. unfold br_of. apply emit_br. reflexivity. Qed.
+
+Lemma emit_text_like v path e :
+  is_text_tag e = true -> emit v path (AE e []) = Ok (map TTxt (ostr (e_text e))).
+Proof.
+  unfold is_text_tag. intro H. apply orb_true_iff in H. destruct H as [H|H].
+  - apply emit_text. exact H.
+  - apply str_eqb_eq in H. destruct e as [tg u l w r a tx tl]. cbn in H. subst tg.
+    cbn. rewrite app_nil_r. reflexivity.
+Qed.
+
+Lemma emit_with_text v path e l :
+  is_text_tag e = true -> emit v path (AE (with_text e l) []) = Ok (map TTxt l).
+Proof. intro H. rewrite emit_text_like; [reflexivity|exact H]. Qed.
+
+Lemma emit_kids_interleave v path e wuri : is_text_tag e = true -> forall lines i,
+  emit_kids v path (interleave (br_of e wuri) (map (fun l => AE (with_text e l) []) lines)) i
+  = Ok (join_toks [TRaw 10] (map (map TTxt) lines)).
+Proof.
+  intros Ht lines. induction lines as [|x r IH]; intro i; [reflexivity|].
+  destruct r as [|y r].
+  - cbn [map interleave emit_kids join_toks]. rewrite emit_with_text by exact Ht.
+    cbn [bind]. rewrite app_nil_r. reflexivity.
+  - change (emit_kids v path
+              (AE (with_text e x) [] :: br_of e wuri ::
+               interleave (br_of e wuri) (map (fun l => AE (with_text e l) []) (y :: r))) i
+            = Ok (map TTxt x ++ [TRaw 10] ++ join_toks [TRaw 10] (map (map TTxt) (y :: r)))).
+    cbn [emit_kids]. rewrite emit_with_text by exact Ht. rewrite emit_br_of.
+    rewrite IH. reflexivity.
+Qed.
+
+Lemma render_false_txt l : render false (map TTxt l) = l.
+Proof.
+  unfold render. induction l as [|c l IH]; [reflexivity|]. cbn [map concat render_tok].
+  rewrite IH. reflexivity.
+Qed.
+
+Lemma render_app h a b : render h (a ++ b) = render h a ++ render h b.
+Proof. unfold render. rewrite map_app, concat_app. reflexivity. Qed.
+
+Lemma render_join_lines lines :
+  render false (join_toks [TRaw 10] (map (map TTxt) lines)) = join [10] lines.
+Proof.
+  induction lines as [|x r IH]; [reflexivity|]. destruct r as [|y r].
+  - cbn [map join_toks join]. apply render_false_txt.
+  - change (render false (map TTxt x ++ [TRaw 10] ++ join_toks [TRaw 10] (map (map TTxt) (y :: r)))
+            = x ++ [10] ++ join [10] (y :: r)).
+    rewrite !render_app, IH, render_false_txt. reflexivity.
+Qed.
+
+Lemma render_repl_toks old new tx :
+  render false (repl_toks old new tx) = join [10] (splitlines (replace old new tx)).
+Proof. apply render_join_lines. Qed.
+
+(* item 1 of the work package (for m:t as well as w:t) *)
+Theorem emit_replaced_text_node : forall v path i old new e c tx wuri,
+  is_text_tag e = true -> e_text e = Some (c :: tx) ->
+  contains old (c :: tx) = true -> e_wuri e = Some wuri ->
+  exists ns, replace_node old new (AE e []) = Ok ns
+    /\ emit_kids v path ns i = Ok (repl_toks old new (c :: tx))
+    /\ render false (repl_toks old new (c :: tx))
+       = join [10] (splitlines (replace old new (c :: tx))).
+Proof.
+  intros v path i old new e c tx wuri Ht Htx Hc Hw.
+  eexists. split; [apply (replace_node_hit old new e [] c tx wuri Htx Hc Hw)|].
+  split; [apply emit_kids_interleave; exact Ht|apply render_repl_toks].
+Qed.
+
+Corollary emit_replaced_w_t : forall v path i old new e c tx wuri,
+  str_eqb (e_ptag e) tag_TEXT = true -> e_text e = Some (c :: tx) ->
+  contains old (c :: tx) = true -> e_wuri e = Some wuri ->
+  exists ns, replace_node old new (AE e []) = Ok ns
+    /\ emit_kids v path ns i = Ok (repl_toks old new (c :: tx)).
+Proof.
+  intros v path i old new e c tx wuri Ht Htx Hc Hw.
+  destruct (emit_replaced_text_node v path i old new e c tx wuri) as (ns & H1 & H2 & _); auto.
+  - unfold is_text_tag. rewrite Ht. reflexivity.
+  - exists ns. auto.
+Qed.
+
+(* ================================================================== *)
+(* 2. node-wise replacement inside an inline subtree                    *)
+(* ================================================================== *)
+
+(* ---------- replace_node, by cases on [hit] ---------- *)
+Lemma replace_node_cases old new e ks :
+  replace_node old new (AE e ks) =
+    if hit old e then
+      wuri <- of_opt KeyError (e_wuri e) ;;
+      Ok (interleave (br_of e wuri)
+            (map (fun l => AE (with_text e l) ks)
+                 (splitlines (replace old new (ostr (e_text e))))))
+    else ks' <- rkids old new ks ;; Ok [AE e ks'].
+Proof.
+  rewrite replace_node_AE. unfold hit.
+  destruct (e_text e) as [[|c tx]|]; reflexivity.
+Qed.
+
+Lemma rkids_inv old new : forall ks ks',
+  rkids old new ks = Ok ks' ->
+  exists nss, Forall2 (fun k ns => replace_node old new k = Ok ns) ks nss /\ ks' = concat nss.
+Proof.
+  induction ks as [|k r IH]; intros ks' H.
+  - cbn in H. injection H as <-. exists []. split; [constructor|reflexivity].
+  - cbn [rkids] in H. bind_inv H as a Ea. bind_inv H as b Eb. injection H as <-.
+    destruct (IH _ eq_refl) as (nss & HF & ->). exists (a :: nss). split; [constructor; assumption|reflexivity].
+Qed.
+
+Lemma rkids_intro old new : forall ks nss,
+  Forall2 (fun k ns => replace_node old new k = Ok ns) ks nss ->
+  rkids old new ks = Ok (concat nss).
+Proof.
+  induction 1 as [|k ns r nss Hk _ IH]; [reflexivity|].
+  cbn [rkids]. rewrite Hk. cbn [bind]. fold (rkids old new). rewrite IH. reflexivity.
+Qed.
+
+(* ---------- generic list helpers ---------- *)
+Lemma forallb_interleave {A} (P : A -> bool) sep : forall l,
+  P sep = true -> forallb P l = true -> forallb P (interleave sep l) = true.
+Proof.
+  intros l Hs. induction l as [|x r IH]; intro H; [reflexivity|].
+  cbn [forallb] in H. apply andb_true_iff in H. destruct H as [Hx Hr].
+  destruct r as [|y r]; [cbn; rewrite Hx; reflexivity|].
+  change (forallb P (x :: sep :: interleave sep (y :: r)) = true).
+  cbn [forallb]. rewrite Hx, Hs, (IH Hr). reflexivity.
+Qed.
+
+Lemma filter_interleave_none {A} (P : A -> bool) sep : forall l,
+  P sep = false -> forallb (fun x => negb (P x)) l = true -> filter P (interleave sep l) = [].
+Proof.
+  intros l Hs. induction l as [|x r IH]; intro H; [reflexivity|].
+  cbn [forallb] in H. apply andb_true_iff in H. destruct H as [Hx Hr].
+  apply negb_true_iff in Hx.
+  destruct r as [|y r]; [cbn; rewrite Hx; reflexivity|].
+  change (filter P (x :: sep :: interleave sep (y :: r)) = []).
+  cbn [filter]. rewrite Hx, Hs. exact (IH Hr).
+Qed.
+
+Lemma filter_concat {A} (P : A -> bool) : forall ll,
+  filter P (concat ll) = concat (map (filter P) ll).
+Proof.
+  induction ll as [|l ll IH]; [reflexivity|].
+  cbn [concat map]. rewrite filter_app, IH. reflexivity.
+Qed.
+
+Lemma concat_map_concat {A B} (f : A -> list B) : forall ll,
+  concat (map f (concat ll)) = concat (map (fun l => concat (map f l)) ll).
+Proof.
+  induction ll as [|l ll IH]; [reflexivity|].
+  cbn [concat map]. rewrite map_app, concat_app, IH. reflexivity.
+Qed.
+
+Lemma forallb_concat {A} (P : A -> bool) : forall ll,
+  forallb P (concat ll) = forallb (forallb P) ll.
+Proof.
+  induction ll as [|l ll IH]; [reflexivity|].
+  cbn [concat forallb]. rewrite forallb_app, IH. reflexivity.
+Qed.
+
+(* ---------- itertext of the replacement ---------- *)
+Lemma concat_map_concat_str (f : anode -> str) (ll : list (list anode)) :
+  concat (map f (concat ll)) = concat (map (fun l => concat (map f l)) ll).
+Proof. exact (concat_map_concat f ll). Qed.
+
+Lemma itertext_inner_AE e ks :
+  itertext_inner (AE e ks) = ostr (e_text e) ++ concat (map itertext_inner ks) ++ ostr (e_tail e).
+Proof.
+  cbn [itertext_inner]. f_equal. f_equal.
+  induction ks as [|k r IH]; [reflexivity|]. cbn [map concat]. rewrite IH. reflexivity.
+Qed.
+
+(* what "".join(itertext()) sees below an element after the replacement: a
+   text element that is hit is repeated once per line, each copy with its
+   (original) children and its tail; the w:br between them adds nothing *)
+Fixpoint itertext_inner_repl (old new : str) (t : anode) : str :=
+  match t with
+  | AX tl => ostr tl
+  | AE e ks =>
+      if hit old e then
+        concat (map (fun l => l ++ concat (map itertext_inner ks) ++ ostr (e_tail e))
+                    (splitlines (replace old new (ostr (e_text e)))))
+      else ostr (e_text e) ++ concat (map (itertext_inner_repl old new) ks) ++ ostr (e_tail e)
+  end.
+
+Definition itertext_repl (old new : str) (t : anode) : str :=
+  match t with
+  | AX _ => []
+  | AE e ks => ostr (e_text e) ++ concat (map (itertext_inner_repl old new) ks)
+  end.
+
+Lemma itertext_interleave e wuri ks : forall lines,
+  concat (map itertext_inner
+            (interleave (br_of e wuri) (map (fun l => AE (with_text e l) ks) lines)))
+  = concat (map (fun l => l ++ concat (map itertext_inner ks) ++ ostr (e_tail e)) lines).
+Proof.
+  induction lines as [|x r IH]; [reflexivity|]. destruct r as [|y r].
+  - cbn [map interleave concat]. rewrite itertext_inner_AE. reflexivity.
+  - change (concat (map itertext_inner
+              (AE (with_text e x) ks :: br_of e wuri ::
+               interleave (br_of e wuri) (map (fun l => AE (with_text e l) ks) (y :: r))))
+            = (x ++ concat (map itertext_inner ks) ++ ostr (e_tail e))
+              ++ concat (map (fun l => l ++ concat (map itertext_inner ks) ++ ostr (e_tail e)) (y :: r))).
+    rewrite <- IH. cbn [map concat]. rewrite itertext_inner_AE. reflexivity.
+Qed.
+
+Lemma Forall2_concat_map {A B C} (f : B -> list C) (g : A -> list C) (R : A -> B -> Prop) :
+  (forall a b, R a b -> f b = g a) ->
+  forall l l', Forall2 R l l' -> concat (map f l') = concat (map g l).
+Proof.
+  intros H. induction 1 as [|a b l l' Hab _ IH]; [reflexivity|].
+  cbn [map concat]. rewrite (H _ _ Hab), IH. reflexivity.
+Qed.
+
+Lemma itertext_replace old new : forall t ns,
+  replace_node old new t = Ok ns ->
+  concat (map itertext_inner ns) = itertext_inner_repl old new t.
+Proof.
+  apply (anode_ind' (fun t => forall ns, replace_node old new t = Ok ns ->
+                       concat (map itertext_inner ns) = itertext_inner_repl old new t)).
+  - intros tl ns H. cbn in H. injection H as <-. cbn. apply app_nil_r.
+  - intros e ks IH ns H. rewrite replace_node_cases in H. cbn [itertext_inner_repl].
+    destruct (hit old e).
+    + bind_inv H as wuri Ew. injection H as <-. apply itertext_interleave.
+    + bind_inv H as ks' Ek. injection H as <-.
+      destruct (rkids_inv _ _ _ _ Ek) as (nss & HF & ->).
+      cbn [map concat]. rewrite app_nil_r, itertext_inner_AE. f_equal. f_equal.
+      rewrite concat_map_concat_str.
+      clear Ek. induction HF as [|k ns r nss Hk _ IHF]; [reflexivity|].
+      inversion IH as [|? ? IHk IHr]; subst. cbn [map concat].
+      rewrite (IHk _ Hk), (IHF IHr). reflexivity.
+Qed.
+
+Lemma itertext_replace_kids old new e : forall ks nss,
+  Forall2 (fun k ns => replace_node old new k = Ok ns) ks nss ->
+  itertext (AE e (concat nss)) = itertext_repl old new (AE e ks).
+Proof.
+  intros ks nss HF. cbn [itertext itertext_repl]. f_equal.
+  rewrite concat_map_concat_str.
+  induction HF as [|k ns r nss Hk _ IH]; [reflexivity|].
+  cbn [map concat]. rewrite (itertext_replace _ _ _ _ Hk), IH. reflexivity.
+Qed.
+
+(* ---------- where the needle may occur ---------- *)
+Definition s_t : str := [116].
+Definition is_nil {A} (l : list A) : bool := match l with [] => true | _ => false end.
+Definition is_some {A} (o : option A) : bool := match o with Some _ => true | None => false end.
+
+(* k is the property child <x>Pr of the element <x> described by e *)
+Definition is_Pr_child (e : einfo) (k : anode) : bool :=
+  is_elem_named (e_uri e) (e_local e ++ s_Pr) k.
+
+(* every element whose own text contains the needle is a w:t / m:t element
+   with local name "t", without children and with the prefix w bound; and the
+   needle does not occur inside the property child (<x>Pr) of any element *)
+Fixpoint repl_ok (old : str) (t : anode) : bool :=
+  match t with
+  | AX _ => true
+  | AE e ks =>
+      if hit old e then
+        is_text_tag e && is_nil ks && is_some (e_wuri e) && str_eqb (e_local e) s_t
+      else
+        forallb (repl_ok old) ks
+        && forallb (fun k => negb (is_Pr_child e k) || needle_free old k) ks
+  end.
+
+(* hyperlinks are excluded: their visible text is computed by sub-collectors *)
+Fixpoint no_link (t : anode) : bool :=
+  match t with
+  | AX _ => true
+  | AE e ks => negb (str_eqb (e_ptag e) tag_HYPERLINK) && forallb no_link ks
+  end.
+
+Lemma repl_ok_hit old e ks :
+  hit old e = true -> repl_ok old (AE e ks) = true ->
+  is_text_tag e = true /\ ks = [] /\ (exists wuri, e_wuri e = Some wuri) /\ e_local e = s_t.
+Proof.
+  intros Hh H. cbn [repl_ok] in H. rewrite Hh in H.
+  apply andb_true_iff in H. destruct H as [H H4].
+  apply andb_true_iff in H. destruct H as [H H3].
+  apply andb_true_iff in H. destruct H as [H1 H2].
+  split; [exact H1|]. split; [destruct ks; [reflexivity|discriminate H2]|].
+  split; [destruct (e_wuri e) as [w|]; [exists w; reflexivity|discriminate H3]|].
+  apply str_eqb_eq. exact H4.
+Qed.
+
+Lemma repl_ok_miss old e ks :
+  hit old e = false -> repl_ok old (AE e ks) = true ->
+  forallb (repl_ok old) ks = true
+  /\ forallb (fun k => negb (is_Pr_child e k) || needle_free old k) ks = true.
+Proof.
+  intros Hh H. cbn [repl_ok] in H. rewrite Hh in H. apply andb_true_iff in H. exact H.
+Qed.
+
+(* replacement succeeds on such trees *)
+Lemma replace_node_total old new : forall t,
+  repl_ok old t = true -> exists ns, replace_node old new t = Ok ns.
+Proof.
+  apply (anode_ind' (fun t => repl_ok old t = true -> exists ns, replace_node old new t = Ok ns)).
+  - intros tl _. eexists. reflexivity.
+  - intros e ks IH H. rewrite replace_node_cases. destruct (hit old e) eqn:Hh.
+    + destruct (repl_ok_hit _ _ _ Hh H) as (_ & _ & (w & Hw) & _). rewrite Hw. eexists. reflexivity.
+    + destruct (repl_ok_miss _ _ _ Hh H) as [Hks _].
+      assert (G : exists nss, Forall2 (fun k ns => replace_node old new k = Ok ns) ks nss).
+      { clear H. induction IH as [|k r Hk _ IHr]; [exists []; constructor|].
+        cbn [forallb] in Hks. apply andb_true_iff in Hks. destruct Hks as [K1 K2].
+        destruct (Hk K1) as [ns Hns]. destruct (IHr K2) as [nss Hnss].
+        exists (ns :: nss). constructor; assumption. }
+      destruct G as [nss G]. rewrite (rkids_intro _ _ _ _ G). eexists. reflexivity.
+Qed.
+
+(* ---------- the replacement nodes are inline ---------- *)
+Lemma plain_inline_br_of e wuri : plain_inline (br_of e wuri) = true.
+Proof. reflexivity. Qed.
+
+Lemma plain_inline_with_text e l ks :
+  plain_inline (AE (with_text e l) ks) = plain_inline (AE e ks).
+Proof. reflexivity. Qed.
+
+Lemma replace_node_plain old new : forall t ns,
+  plain_inline t = true -> replace_node old new t = Ok ns -> forallb plain_inline ns = true.
+Proof.
+  apply (anode_ind' (fun t => forall ns, plain_inline t = true -> replace_node old new t = Ok ns ->
+                                         forallb plain_inline ns = true)).
+  - intros tl ns _ H. cbn in H. injection H as <-. reflexivity.
+  - intros e ks IH ns Hpl H. rewrite replace_node_cases in H. destruct (hit old e).
+    + bind_inv H as wuri Ew. injection H as <-.
+      apply forallb_interleave; [apply plain_inline_br_of|].
+      rewrite forallb_forall. intros x Hx. apply in_map_iff in Hx. destruct Hx as (l & <- & _).
+      rewrite plain_inline_with_text. exact Hpl.
+    + bind_inv H as ks' Ek. injection H as <-.
+      destruct (rkids_inv _ _ _ _ Ek) as (nss & HF & ->).
+      cbn [forallb]. rewrite andb_true_r.
+      pose proof (plain_inline_AE _ _ Hpl) as [Htag Hks].
+      assert (G : forallb plain_inline (concat nss) = true).
+      { rewrite forallb_concat. clear Ek Hpl.
+        induction HF as [|k ns r nss Hk _ IHF]; [reflexivity|].
+        inversion IH as [|? ? IHk IHr]; subst.
+        cbn [forallb] in Hks |- *. apply andb_true_iff in Hks. destruct Hks as [K1 K2].
+        rewrite (IHk _ K1 Hk), (IHF IHr K2). reflexivity. }
+      cbn [plain_inline] in Hpl |- *.
+      repeat (apply andb_true_iff in Hpl; let H2 := fresh "H" in destruct Hpl as [Hpl H2]).
+      rewrite Hpl, G. repeat match goal with Hx : negb _ = true |- _ => rewrite Hx; clear Hx end.
+      reflexivity.
+Qed.
+
+(* ---------- the handlers do not see the replacement ---------- *)
+Definition same_root (a b : anode) : Prop :=
+  match a, b with
+  | AE e1 _, AE e2 _ => e1 = e2
+  | AX _, AX _ => True
+  | _, _ => False
+  end.
+
+Lemma local_Pr_not_t l : str_eqb s_t (l ++ s_Pr) = false.
+Proof.
+  destruct l as [|a l]; [reflexivity|]. cbn [app s_t str_eqb].
+  destruct l as [|b l]; cbn [app]; apply andb_false_r.
+Qed.
+
+Lemma local_Pr_not_br l : str_eqb s_br (l ++ s_Pr) = false.
+Proof.
+  destruct l as [|a l]; [reflexivity|]. destruct l as [|b l].
+  - cbn [app s_br s_Pr str_eqb]. destruct (98 =? a); reflexivity.
+  - cbn [app s_br str_eqb]. destruct l as [|c l]; cbn [app]; rewrite !andb_false_r; reflexivity.
+Qed.
+
+Lemma named_replace old new u nm k ns :
+  str_eqb s_t nm = false -> str_eqb s_br nm = false ->
+  repl_ok old k = true -> replace_node old new k = Ok ns ->
+  Forall2 same_root (filter (is_elem_named u nm) [k]) (filter (is_elem_named u nm) ns).
+Proof.
+  intros Ht Hb Hok H. destruct k as [e ks|tl].
+  - rewrite replace_node_cases in H. destruct (hit old e) eqn:Hh.
+    + destruct (repl_ok_hit _ _ _ Hh Hok) as (_ & _ & _ & Hl).
+      bind_inv H as wuri Ew. injection H as <-.
+      assert (N1 : is_elem_named u nm (AE e ks) = false).
+      { cbn [is_elem_named]. rewrite Hl, Ht. apply andb_false_r. }
+      cbn [filter]. rewrite N1. rewrite filter_interleave_none; [constructor| |].
+      * cbn [br_of is_elem_named e_local]. rewrite Hb. apply andb_false_r.
+      * rewrite forallb_forall. intros x Hx. apply in_map_iff in Hx. destruct Hx as (l & <- & _).
+        apply negb_true_iff. exact N1.
+    + bind_inv H as ks' Ek. injection H as <-. cbn [filter is_elem_named].
+      destruct (ostr_eqb (e_uri e) u && str_eqb (e_local e) nm); repeat constructor.
+  - cbn in H. injection H as <-. cbn. constructor.
+Qed.
+
+Lemma named_replace_list old new u nm :
+  str_eqb s_t nm = false -> str_eqb s_br nm = false ->
+  forall ks nss, Forall2 (fun k ns => replace_node old new k = Ok ns) ks nss ->
+  forallb (repl_ok old) ks = true ->
+  Forall2 same_root (find_children u nm ks) (find_children u nm (concat nss)).
+Proof.
+  intros Ht Hb ks nss HF. unfold find_children.
+  induction HF as [|k ns r nss Hk _ IH]; intro Hok; [constructor|].
+  cbn [forallb] in Hok. apply andb_true_iff in Hok. destruct Hok as [K1 K2].
+  change (k :: r) with ([k] ++ r). cbn [concat]. rewrite !filter_app.
+  apply Forall2_app; [apply (named_replace old new u nm k ns Ht Hb K1 Hk)|apply IH; exact K2].
+Qed.
+
+Lemma pr_replace old new e : forall ks nss,
+  Forall2 (fun k ns => replace_node old new k = Ok ns) ks nss ->
+  forallb (repl_ok old) ks = true ->
+  forallb (fun k => negb (is_Pr_child e k) || needle_free old k) ks = true ->
+  find_children (e_uri e) (e_local e ++ s_Pr) (concat nss)
+  = find_children (e_uri e) (e_local e ++ s_Pr) ks.
+Proof.
+  intros ks nss HF. unfold find_children.
+  induction HF as [|k ns r nss Hk _ IH]; intros Hok Hpr; [reflexivity|].
+  cbn [forallb] in Hok, Hpr. apply andb_true_iff in Hok. destruct Hok as [K1 K2].
+  apply andb_true_iff in Hpr. destruct Hpr as [P1 P2].
+  change (k :: r) with ([k] ++ r). cbn [concat]. rewrite !filter_app, (IH K2 P2). f_equal.
+  unfold is_Pr_child in P1.
+  destruct (is_elem_named (e_uri e) (e_local e ++ s_Pr) k) eqn:En.
+  - cbn [negb orb] in P1. rewrite (replace_node_frame _ _ _ P1) in Hk. injection Hk as <-. reflexivity.
+  - pose proof (named_replace old new (e_uri e) (e_local e ++ s_Pr) k ns
+                  (local_Pr_not_t _) (local_Pr_not_br _) K1 Hk) as G.
+    cbn [filter] in G |- *. rewrite En in G |- *. inversion G. reflexivity.
+Qed.
+
+Lemma gather_Pr_replaced old new e ks nss :
+  Forall2 (fun k ns => replace_node old new k = Ok ns) ks nss ->
+  forallb (repl_ok old) ks = true ->
+  forallb (fun k => negb (is_Pr_child e k) || needle_free old k) ks = true ->
+  gather_Pr e (concat nss) = gather_Pr e ks.
+Proof.
+  intros HF Hok Hpr. unfold gather_Pr, find_child.
+  rewrite (pr_replace old new e ks nss HF Hok Hpr). reflexivity.
+Qed.
+
+Lemma head_same_root l1 l2 : Forall2 same_root l1 l2 ->
+  (l1 = [] /\ l2 = [])
+  \/ (exists ce k1 k2 r1 r2, l1 = AE ce k1 :: r1 /\ l2 = AE ce k2 :: r2)
+  \/ (exists t1 t2 r1 r2, l1 = AX t1 :: r1 /\ l2 = AX t2 :: r2).
+Proof.
+  intros [|a b r1 r2 Hab _]; [left; auto|right].
+  destruct a as [e1 k1|t1], b as [e2 k2|t2]; cbn in Hab; try contradiction.
+  - subst e2. left. exists e1, k1, k2, r1, r2. auto.
+  - right. exists t1, t2, r1, r2. auto.
+Qed.
+
+Lemma mapM_same_root {B} (f : anode -> res B) :
+  (forall a b, same_root a b -> f a = f b) ->
+  forall l1 l2, Forall2 same_root l1 l2 -> mapM f l1 = mapM f l2.
+Proof.
+  intros Hf. induction 1 as [|a b r1 r2 Hab _ IH]; [reflexivity|].
+  cbn [mapM]. rewrite (Hf _ _ Hab), IH. reflexivity.
+Qed.
+
+Lemma entry_val_same a b : same_root a b ->
+  match a with AE ke _ => attr_w_req ke s_val | AX _ => Err ModelError end
+  = match b with AE ke _ => attr_w_req ke s_val | AX _ => Err ModelError end.
+Proof.
+  destruct a as [e1 k1|t1], b as [e2 k2|t2]; cbn; intro H; try contradiction; subst; reflexivity.
+Qed.
+
+Section Handlers.
+  Variables (old new : str) (e : einfo) (ks : list anode) (nss : list (list anode)).
+  Hypothesis HF : Forall2 (fun k ns => replace_node old new k = Ok ns) ks nss.
+  Hypothesis Hok : forallb (repl_ok old) ks = true.
+
+  Lemma checkBox_replaced : get_checkBox_entry e (concat nss) = get_checkBox_entry e ks.
+  Proof.
+    unfold get_checkBox_entry, children_w. destruct (e_wuri e) as [u|]; [|reflexivity].
+    cbn [bind].
+    pose proof (named_replace_list old new (Some u) s_checked eq_refl eq_refl ks nss HF Hok) as G1.
+    pose proof (named_replace_list old new (Some u) s_default eq_refl eq_refl ks nss HF Hok) as G2.
+    apply head_same_root in G1. apply head_same_root in G2.
+    destruct G1 as [[-> ->]|[(ce & k1 & k2 & r1 & r2 & -> & ->)|(t1 & t2 & r1 & r2 & -> & ->)]];
+      try reflexivity;
+      destruct G2 as [[-> ->]|[(de & j1 & j2 & q1 & q2 & -> & ->)|(y1 & y2 & q1 & q2 & -> & ->)]];
+      reflexivity.
+  Qed.
+
+  Lemma ddList_replaced : get_ddList_entry e (concat nss) = get_ddList_entry e ks.
+  Proof.
+    unfold get_ddList_entry, children_w. destruct (e_wuri e) as [u|]; [|reflexivity].
+    cbn [bind].
+    pose proof (named_replace_list old new (Some u) s_listEntry eq_refl eq_refl ks nss HF Hok) as G1.
+    pose proof (named_replace_list old new (Some u) s_result eq_refl eq_refl ks nss HF Hok) as G2.
+    rewrite <- (mapM_same_root _ entry_val_same _ _ G1).
+    apply head_same_root in G2.
+    destruct G2 as [[-> ->]|[(de & j1 & j2 & q1 & q2 & -> & ->)|(y1 & y2 & q1 & q2 & -> & ->)]];
+      reflexivity.
+  Qed.
+End Handlers.
+
+Lemma open_emit_replaced v old new e ks nss body :
+  Forall2 (fun k ns => replace_node old new k = Ok ns) ks nss ->
+  forallb (repl_ok old) ks = true ->
+  forallb (fun k => negb (is_Pr_child e k) || needle_free old k) ks = true ->
+  open_emit v e (concat nss) body (itertext (AE e (concat nss)))
+  = open_emit v e ks body (itertext_repl old new (AE e ks)).
+Proof.
+  intros HF Hok Hpr. unfold open_emit, get_run_formatting.
+  rewrite (gather_Pr_replaced old new e ks nss HF Hok Hpr).
+  rewrite (checkBox_replaced old new e ks nss HF Hok).
+  rewrite (ddList_replaced old new e ks nss HF Hok).
+  rewrite (itertext_replace_kids old new e ks nss HF).
+  reflexivity.
+Qed.
+
+(* ---------- the expected tokens ---------- *)
+(* [emit_repl] mirrors [emit] (see emit_AE) on the ORIGINAL tree: formatting,
+   form fields, note references, pictures, tabs and breaks are computed from
+   the original element and its original children; only the characters of
+   the text elements that are hit change, and m:oMath sees the new itertext *)
+Section EmitRepl.
+  Variables (v : env) (old new : str).
+  Fixpoint emit_repl (t : anode) : res (list tok) :=
+    match t with
+    | AX _ => Ok []
+    | AE e ks =>
+        if hit old e then Ok (repl_toks old new (ostr (e_text e)))
+        else
+          r <- open_emit v e ks [] (itertext_repl old new (AE e ks)) ;;
+          em2 <- (if snd r then
+                    (fix go (l : list anode) : res (list tok) :=
+                       match l with
+                       | [] => Ok []
+                       | k :: r' => a <- emit_repl k ;; b <- go r' ;; Ok (a ++ b)
+                       end) ks
+                  else Ok []) ;;
+          Ok (fst r ++ em2)
+    end.
+  Fixpoint emit_repl_kids (l : list anode) : res (list tok) :=
+    match l with
+    | [] => Ok []
+    | k :: r => a <- emit_repl k ;; b <- emit_repl_kids r ;; Ok (a ++ b)
+    end.
+  Lemma emit_repl_AE e ks :
+    emit_repl (AE e ks) =
+      if hit old e then Ok (repl_toks old new (ostr (e_text e)))
+      else
+        r <- open_emit v e ks [] (itertext_repl old new (AE e ks)) ;;
+        em2 <- (if snd r then emit_repl_kids ks else Ok []) ;;
+        Ok (fst r ++ em2).
+  Proof. reflexivity. Qed.
+End EmitRepl.
+
+Lemma emit_kids_app v path : forall a b i,
+  emit_kids v path (a ++ b) i
+  = (x <- emit_kids v path a i ;; y <- emit_kids v path b (i + length a)%nat ;; Ok (x ++ y)).
+Proof.
+  induction a as [|k a IH]; intros b i.
+  - cbn [app emit_kids length bind]. rewrite Nat.add_0_r.
+    destruct (emit_kids v path b i); reflexivity.
+  - cbn [app emit_kids length]. rewrite IH.
+    replace (S i + length a)%nat with (i + S (length a))%nat by lia.
+    destruct (emit v (i :: path) k) as [t1|]; [|reflexivity]. cbn [bind].
+    destruct (emit_kids v path a (S i)) as [t2|]; [|reflexivity]. cbn [bind].
+    destruct (emit_kids v path b (i + S (length a))) as [t3|]; [|reflexivity]. cbn [bind].
+    rewrite app_assoc. reflexivity.
+Qed.
+
+Lemma emit_AX v path tl : emit v path (AX tl) = Ok [].
+Proof. reflexivity. Qed.
+
+Lemma no_link_AE e ks :
+  no_link (AE e ks) = true ->
+  str_eqb (e_ptag e) tag_HYPERLINK = false /\ forallb no_link ks = true.
+Proof.
+  cbn [no_link]. intro H. apply andb_true_iff in H. destruct H as [H1 H2].
+  apply negb_true_iff in H1. auto.
+Qed.
+
+(* item 2 of the work package *)
+Theorem emit_replace_nodewise : forall v old new t,
+  plain_inline t = true -> no_link t = true -> repl_ok old t = true ->
+  forall ns path i, replace_node old new t = Ok ns ->
+  emit_kids v path ns i = emit_repl v old new t.
+Proof.
+  intros v old new.
+  apply (anode_ind' (fun t => plain_inline t = true -> no_link t = true -> repl_ok old t = true ->
+           forall ns path i, replace_node old new t = Ok ns ->
+           emit_kids v path ns i = emit_repl v old new t)).
+  - intros tl _ _ _ ns path i H. cbn in H. injection H as <-. reflexivity.
+  - intros e ks IH Hpl Hnl Hok ns path i H.
+    rewrite emit_repl_AE. rewrite replace_node_cases in H.
+    destruct (hit old e) eqn:Hh.
+    + destruct (repl_ok_hit _ _ _ Hh Hok) as (Ht & -> & (w & Hw) & _).
+      rewrite Hw in H. cbn [of_opt bind] in H. injection H as <-.
+      apply emit_kids_interleave. exact Ht.
+    + destruct (repl_ok_miss _ _ _ Hh Hok) as [Hoks Hpr].
+      bind_inv H as ks' Ek. injection H as <-.
+      destruct (rkids_inv _ _ _ _ Ek) as (nss & HF & ->).
+      pose proof (replace_node_plain old new (AE e ks) [AE e (concat nss)] Hpl) as Hpl'.
+      rewrite replace_node_cases, Hh, Ek in Hpl'. specialize (Hpl' eq_refl).
+      cbn [forallb] in Hpl'. rewrite andb_true_r in Hpl'.
+      destruct (no_link_AE _ _ Hnl) as [Hnh Hnks].
+      pose proof (plain_inline_AE _ _ Hpl) as [_ Hpks].
+      cbn [emit_kids]. rewrite (emit_AE v (i :: path) e (concat nss) Hpl').
+      unfold emit_AE_rhs. rewrite Hnh. cbn [bind].
+      rewrite (open_emit_replaced v old new e ks nss [] HF Hoks Hpr).
+      assert (G : forall p j, emit_kids v p (concat nss) j = emit_repl_kids v old new ks).
+      { clear Ek Hpl Hpl' Hnl Hok Hpr.
+        induction HF as [|k ns r nss Hk _ IHF]; intros p j; [reflexivity|].
+        inversion IH as [|? ? IHk IHr]; subst.
+        cbn [forallb] in Hoks, Hnks, Hpks.
+        apply andb_true_iff in Hoks. destruct Hoks as [O1 O2].
+        apply andb_true_iff in Hnks. destruct Hnks as [N1 N2].
+        apply andb_true_iff in Hpks. destruct Hpks as [P1 P2].
+        cbn [concat emit_repl_kids]. rewrite emit_kids_app.
+        rewrite (IHk P1 N1 O1 ns p j Hk), (IHF IHr O2 N2 P2). reflexivity. }
+      destruct (open_emit v e ks [] (itertext_repl old new (AE e ks))) as [[em1 b]|x];
+        [|reflexivity].
+      cbn [bind fst snd]. destruct b.
+      * rewrite G. destruct (emit_repl_kids v old new ks) as [em2|x]; [|reflexivity].
+        cbn [bind]. rewrite app_nil_r. reflexivity.
+      * cbn [bind]. rewrite app_nil_r. reflexivity.
+Qed.
+
+(* where nothing is hit, emit_repl is emit: "everything else is unchanged" *)
+Lemma needle_free_AE old e ks :
+  needle_free old (AE e ks) = true -> hit old e = false /\ forallb (needle_free old) ks = true.
+Proof.
+  cbn [needle_free]. intro H. apply andb_true_iff in H. destruct H as [H1 H2].
+  apply negb_true_iff in H1. auto.
+Qed.
+
+Lemma needle_free_repl_ok old : forall t, needle_free old t = true -> repl_ok old t = true.
+Proof.
+  apply (anode_ind' (fun t => needle_free old t = true -> repl_ok old t = true)).
+  - reflexivity.
+  - intros e ks IH H. destruct (needle_free_AE _ _ _ H) as [Hh Hks].
+    cbn [repl_ok]. rewrite Hh. apply andb_true_iff. split.
+    + clear H. induction IH as [|k r Hk _ IHr]; [reflexivity|].
+      cbn [forallb] in Hks |- *. apply andb_true_iff in Hks. destruct Hks as [K1 K2].
+      rewrite (Hk K1), (IHr K2). reflexivity.
+    + rewrite forallb_forall in Hks |- *. intros k Hk. rewrite (Hks k Hk). apply orb_true_r.
+Qed.
+
+Lemma replace_frame_Forall2 old new : forall ks,
+  forallb (needle_free old) ks = true ->
+  Forall2 (fun k ns => replace_node old new k = Ok ns) ks (map (fun k => [k]) ks).
+Proof.
+  induction ks as [|k r IHr]; intro Hks; [constructor|].
+  cbn [forallb] in Hks. apply andb_true_iff in Hks. destruct Hks as [K1 K2].
+  constructor; [apply replace_node_frame; exact K1|apply IHr; exact K2].
+Qed.
+
+Lemma concat_singletons {A} : forall l : list A, concat (map (fun k => [k]) l) = l.
+Proof. induction l as [|k r IH]; [reflexivity|]. cbn. rewrite IH. reflexivity. Qed.
+
+Theorem emit_repl_frame : forall v old new t,
+  plain_inline t = true -> no_link t = true -> needle_free old t = true ->
+  forall path, emit_repl v old new t = emit v path t.
+Proof.
+  intros v old new.
+  apply (anode_ind' (fun t => plain_inline t = true -> no_link t = true ->
+           needle_free old t = true -> forall path, emit_repl v old new t = emit v path t)).
+  - reflexivity.
+  - intros e ks IH Hpl Hnl Hnf path.
+    destruct (needle_free_AE _ _ _ Hnf) as [Hh Hks].
+    rewrite emit_repl_AE, Hh, (emit_AE v path e ks Hpl). unfold emit_AE_rhs.
+    destruct (no_link_AE _ _ Hnl) as [-> Hnks]. cbn [bind].
+    destruct (repl_ok_miss _ _ _ Hh (needle_free_repl_ok _ _ Hnf)) as [Hoks Hpr].
+    pose proof (open_emit_replaced v old new e ks _ [] (replace_frame_Forall2 old new ks Hks)
+                  Hoks Hpr) as Ho.
+    rewrite concat_singletons in Ho. rewrite <- Ho.
+    destruct (open_emit v e ks [] (itertext (AE e ks))) as [[em1 b]|x]; [|reflexivity].
+    cbn [bind fst snd]. destruct b; [|reflexivity].
+    assert (Gk : forall i, emit_kids v path ks i = emit_repl_kids v old new ks).
+    { pose proof (plain_inline_AE _ _ Hpl) as [_ Hpks].
+      clear - IH Hks Hnks Hpks.
+      induction IH as [|k r Hk _ IHr]; intro i; [reflexivity|].
+      cbn [forallb] in Hks, Hnks, Hpks.
+      apply andb_true_iff in Hks. destruct Hks as [K1 K2].
+      apply andb_true_iff in Hnks. destruct Hnks as [N1 N2].
+      apply andb_true_iff in Hpks. destruct Hpks as [P1 P2].
+      cbn [emit_kids emit_repl_kids]. rewrite (IHr K2 N2 P2), (Hk P1 N1 K1 (i :: path)). reflexivity. }
+    rewrite Gk. reflexivity.
+Qed.
+
+(* ---------- the needle-independent form of the hypotheses ---------- *)
+(* text is carried only by w:t / m:t elements (local name "t") without children *)
+Fixpoint text_leaves (t : anode) : bool :=
+  match t with
+  | AX _ => true
+  | AE e ks =>
+      match e_text e with
+      | Some (_ :: _) => is_text_tag e && is_nil ks && str_eqb (e_local e) s_t
+      | _ => true
+      end && forallb text_leaves ks
+  end.
+
+(* every element whose text contains the needle has the prefix w bound *)
+Fixpoint wuri_at_hits (old : str) (t : anode) : bool :=
+  match t with
+  | AX _ => true
+  | AE e ks => (negb (hit old e) || is_some (e_wuri e)) && forallb (wuri_at_hits old) ks
+  end.
+
+Lemma text_tag_is_content e : is_text_tag e = true -> mem_str (e_ptag e) content_tags = true.
+Proof.
+  unfold is_text_tag. intro H. apply orb_true_iff in H.
+  destruct H as [H|H]; apply str_eqb_eq in H; rewrite H; reflexivity.
+Qed.
+
+Lemma hit_text old e : hit old e = true -> exists c tx, e_text e = Some (c :: tx).
+Proof. unfold hit. destruct (e_text e) as [[|c tx]|]; try discriminate. eauto. Qed.
+
+Lemma nocontent_needle_free old : forall t,
+  text_leaves t = true -> has_content t = false -> needle_free old t = true.
+Proof.
+  apply (anode_ind' (fun t => text_leaves t = true -> has_content t = false ->
+                              needle_free old t = true)).
+  - reflexivity.
+  - intros e ks IH Htl Hc. rewrite has_content_AE in Hc. apply orb_false_iff in Hc.
+    destruct Hc as [Hm Hk]. cbn [text_leaves] in Htl. apply andb_true_iff in Htl.
+    destruct Htl as [Ht Hks]. cbn [needle_free]. apply andb_true_iff. split.
+    + apply negb_true_iff. destruct (e_text e) as [[|c tx]|]; try reflexivity.
+      apply andb_true_iff in Ht. destruct Ht as [Ht _]. apply andb_true_iff in Ht.
+      destruct Ht as [Ht _]. rewrite (text_tag_is_content _ Ht) in Hm. discriminate Hm.
+    + clear Ht Hm. induction IH as [|k r Hk1 _ IHr]; [reflexivity|].
+      cbn [forallb existsb] in Hks, Hk |- *. apply andb_true_iff in Hks. destruct Hks as [K1 K2].
+      apply orb_false_iff in Hk. destruct Hk as [C1 C2].
+      rewrite (Hk1 K1 C1), (IHr K2 C2). reflexivity.
+Qed.
+
+Lemma text_leaves_repl_ok old : forall t,
+  text_leaves t = true -> wf_pr t = true -> wuri_at_hits old t = true -> repl_ok old t = true.
+Proof.
+  apply (anode_ind' (fun t => text_leaves t = true -> wf_pr t = true ->
+                              wuri_at_hits old t = true -> repl_ok old t = true)).
+  - reflexivity.
+  - intros e ks IH Htl Hpr Hw. cbn [text_leaves] in Htl. apply andb_true_iff in Htl.
+    destruct Htl as [Ht Hks]. rewrite wf_pr_AE in Hpr. apply andb_true_iff in Hpr.
+    destruct Hpr as [Hp Hprs]. cbn [wuri_at_hits] in Hw. apply andb_true_iff in Hw.
+    destruct Hw as [Hw Hws]. cbn [repl_ok]. destruct (hit old e) eqn:Hh.
+    + destruct (hit_text _ _ Hh) as (c & tx & Etx). rewrite Etx in Ht.
+      cbn [negb orb] in Hw. rewrite Hw.
+      apply andb_true_iff in Ht. destruct Ht as [Ht H3]. rewrite Ht, H3. reflexivity.
+    + apply andb_true_iff. split.
+      * clear Ht Hp Hw. induction IH as [|k r Hk _ IHr]; [reflexivity|].
+        cbn [forallb] in Hks, Hprs, Hws |- *.
+        apply andb_true_iff in Hks. destruct Hks as [K1 K2].
+        apply andb_true_iff in Hprs. destruct Hprs as [P1 P2].
+        apply andb_true_iff in Hws. destruct Hws as [W1 W2].
+        rewrite (Hk K1 P1 W1), (IHr K2 P2 W2). reflexivity.
+      * unfold pr_ok in Hp. rewrite forallb_forall in Hp, Hks |- *. intros k Hk.
+        specialize (Hp k Hk). unfold is_Pr_child.
+        destruct (is_elem_named (e_uri e) (e_local e ++ s_Pr) k); [|reflexivity].
+        cbn [negb orb] in Hp |- *. apply negb_true_iff in Hp.
+        apply nocontent_needle_free; [apply Hks; exact Hk|exact Hp].
+Qed.
+
+(* item 2 in the form asked for: text only at w:t/m:t leaves, prefix w bound at
+   every hit, no hyperlink, and (MergeFacts.wf_pr) no content inside <x>Pr *)
+Corollary emit_replace_text_leaves : forall v old new t ns path i,
+  plain_inline t = true -> no_link t = true ->
+  text_leaves t = true -> wf_pr t = true -> wuri_at_hits old t = true ->
+  replace_node old new t = Ok ns ->
+  emit_kids v path ns i = emit_repl v old new t.
+Proof.
+  intros v old new t ns path i Hpl Hnl Htl Hpr Hw H.
+  apply emit_replace_nodewise; auto. apply text_leaves_repl_ok; assumption.
+Qed.
+
+(* ================================================================== *)
+(* 3. a paragraph without the needle is left exactly as it is           *)
+(* ================================================================== *)
+Theorem replace_frame_paragraph : forall old new t,
+  simple_par t = true -> needle_free old t = true -> replace_node old new t = Ok [t].
+Proof. intros old new t _ H. apply replace_node_frame. exact H. Qed.
+
+(* ================================================================== *)
+(* 4. the pairs are applied left to right                               *)
+(* ================================================================== *)
+Lemma replace_all_nil : forall root, replace_all [] root = Ok root.
+Proof. reflexivity. Qed.
+
+Theorem replace_all_fold : forall p ps root,
+  replace_all (p :: ps) root
+  = (t <- replace_root_text (fst p) (snd p) root ;; replace_all ps t).
+Proof. reflexivity. Qed.
+
+Theorem replace_all_app : forall ps qs root,
+  replace_all (ps ++ qs) root = (t <- replace_all ps root ;; replace_all qs t).
+Proof.
+  induction ps as [|p ps IH]; intros qs root; [reflexivity|].
+  cbn [app]. rewrite !replace_all_fold.
+  destruct (replace_root_text (fst p) (snd p) root) as [t|x]; [|reflexivity].
+  cbn [bind]. apply IH.
+Qed.
+
+(* the children of the root are free of the needle (the root's own text is
+   never looked at) *)
+Definition needle_free_below (old : str) (t : anode) : bool :=
+  match t with AE _ ks => forallb (needle_free old) ks | AX _ => true end.
+
+Lemma replace_root_noop old new t :
+  needle_free_below old t = true -> replace_root_text old new t = Ok t.
+Proof.
+  destruct t as [e ks|tl]; [|reflexivity]. apply replace_root_frame_kids.
+Qed.
+
+(* a pair whose needle occurs nowhere (at the time it is applied) is a no-op *)
+Theorem replace_all_skip_head : forall p ps root,
+  needle_free_below (fst p) root = true -> replace_all (p :: ps) root = replace_all ps root.
+Proof.
+  intros p ps root H. rewrite replace_all_fold, (replace_root_noop _ _ _ H). reflexivity.
+Qed.
+
+Theorem replace_all_skip : forall ps p qs root t,
+  replace_all ps root = Ok t -> needle_free_below (fst p) t = true ->
+  replace_all (ps ++ p :: qs) root = replace_all (ps ++ qs) root.
+Proof.
+  intros ps p qs root t H Hn. rewrite !replace_all_app, H. cbn [bind].
+  apply replace_all_skip_head. exact Hn.
+Qed.
+
+(* all needles absent: nothing happens *)
+Theorem replace_all_noop : forall pairs root,
+  (forall p, In p pairs -> needle_free_below (fst p) root = true) -> replace_all pairs root = Ok root.
+Proof.
+  induction pairs as [|p ps IH]; intros root H; [reflexivity|].
+  rewrite replace_all_skip_head by (apply H; left; reflexivity).
+  apply IH. intros q Hq. apply H. right. exact Hq.
+Qed.
+
+(* ================================================================== *)
+(* 5. C16: extracting a saved part again gives the same result          *)
+(* ================================================================== *)
+Lemma mapM_In_fwd {A B} (f : A -> res B) : forall l ys,
+  mapM f l = Ok ys -> forall x, In x l -> exists y, f x = Ok y /\ In y ys.
+Proof.
+  induction l as [|a l IH]; intros ys H x Hx; [destruct Hx|].
+  cbn [mapM] in H. bind_inv H as y Ey. bind_inv H as ys' Eys. injection H as <-.
+  destruct Hx as [<-|Hx].
+  - exists y. split; [exact Ey|left; reflexivity].
+  - destruct (IH _ eq_refl x Hx) as (y' & Hy & Hin). exists y'. split; [exact Hy|right; exact Hin].
+Qed.
+
+(* every content part is written back as its (merged) root element *)
+Theorem save_then_part_root : forall a o out,
+  save a o = Ok out ->
+  exists fs, files a = Ok fs /\
+    forall f, In f fs -> mem_str (f_type f) save_overwrite_types = true ->
+      exists t, part_root a fs o f = Ok t /\ In (f_path f, WXml t) out.
+Proof.
+  intros a o out H. unfold save in H. bind_inv H as fs Efs. exists fs. split; [reflexivity|].
+  intros f Hf Hty.
+  destruct (save_written_exact _ _ _ _ H) as (copied & written & -> & _ & Hw).
+  assert (Hin : In f (filter (fun f => mem_str (f_type f) save_overwrite_types) fs)).
+  { apply filter_In. split; assumption. }
+  destruct (mapM_In_fwd _ _ _ Hw f Hin) as (y & Hy & Hyin).
+  bind_inv Hy as t Et. injection Hy as <-.
+  exists t. split; [reflexivity|]. apply in_or_app. right. exact Hyin.
+Qed.
+
+(* conversely, everything that is written as XML is such a root *)
+Theorem save_written_is_part_root : forall a o out n t,
+  save a o = Ok out -> In (n, WXml t) out ->
+  exists fs f, files a = Ok fs /\ In f fs /\ mem_str (f_type f) save_overwrite_types = true
+    /\ n = f_path f /\ part_root a fs o f = Ok t.
+Proof.
+  intros a o out n t H Hin. unfold save in H. bind_inv H as fs Efs.
+  destruct (save_written_exact _ _ _ _ H) as (copied & written & -> & Hc & Hw).
+  apply in_app_or in Hin. destruct Hin as [Hin|Hin].
+  - rewrite Forall_forall in Hc. destruct (Hc _ Hin) as [i Hi]. discriminate Hi.
+  - destruct (SaveFacts.mapM_In _ _ _ _ _ Hw _ Hin) as (f & Hf & Hy).
+    apply filter_In in Hf. destruct Hf as [Hf Hty].
+    bind_inv Hy as t' Et. injection Hy as <- <-.
+    exists fs, f. auto.
+Qed.
+
+(* the environment File.root_element merges under *)
+Definition merge_env (o : opts) (rels : list (str * str)) : env :=
+  {| env_x2h := if o_html o then xml2html_table else [];
+     env_rels := rels; env_dup := o_dup o; env_numtbl := [] |}.
+
+(* extraction of a part whose member has been replaced by the tree [t]
+   (the relationships and numbering members are copied unchanged by save):
+   File.root_element merges what it reads, then the collector runs *)
+Definition reextract (a : archive) (fs : list frec) (o : opts) (f : frec) (t : anode) : res cst :=
+  rels <- file_rels_or_empty a fs f ;;
+  m <- merge_elems (merge_env o rels) t ;;
+  v <- part_env a fs o f ;;
+  collect_from v [] m.
+
+Lemma content_is_overwritten ty :
+  mem_str ty content_file_types = true -> mem_str ty save_overwrite_types = true.
+Proof.
+  intro H. apply MergeFacts.mem_str_In in H. cbn in H.
+  repeat (destruct H as [<-|H]; [reflexivity|]). destruct H.
+Qed.
+
+Theorem C16_reextract_partial : forall pt a o out fs f r rels,
+  save a o = Ok out -> files a = Ok fs -> In f fs ->
+  mem_str (f_type f) content_file_types = true ->
+  member_xml a (f_path f) = Ok r -> file_rels_or_empty a fs f = Ok rels ->
+  rels_ok (merge_env o rels) -> wf_ptag pt (view r) = true -> wf_pr (view r) = true ->
+  exists t, In (f_path f, WXml t) out /\ part_root a fs o f = Ok t
+    /\ merge_elems (merge_env o rels) t = Ok t
+    /\ (forall v, (t' <- merge_elems (merge_env o rels) t ;; collect_from v [] t')
+                  = collect_from v [] t)
+    /\ reextract a fs o f t = part_collector a fs o f.
+Proof.
+  intros pt a o out fs f r rels Hs Hfs Hf Hty Hr Hrels Hok Hpt Hpr.
+  destruct (save_then_part_root a o out Hs) as (fs' & Hfs' & Hall).
+  rewrite Hfs in Hfs'. injection Hfs' as <-.
+  destruct (Hall f Hf (content_is_overwritten _ Hty)) as (t & Ht & Hin).
+  exists t. split; [exact Hin|]. split; [exact Ht|].
+  assert (Hm : merge_elems (merge_env o rels) t = Ok t).
+  { unfold part_root in Ht. rewrite Hr in Ht. cbn [bind] in Ht. rewrite Hty, Hrels in Ht.
+    cbn [bind] in Ht. exact (merge_idempotent_partial pt _ _ _ Hok Hpt Hpr Ht). }
+  split; [exact Hm|]. split.
+  - intro v. rewrite Hm. reflexivity.
+  - unfold reextract, part_collector. rewrite Hrels. cbn [bind]. rewrite Hm, Ht. reflexivity.
+Qed.
+
+(* ================================================================== *)
+(* 6. examples                                                          *)
+(* ================================================================== *)
+Section Examples.
+  Import String.StringSyntax.
+  Local Open Scope string_scope.
+  Definition ex_U : str := s2l "http://schemas.openxmlformats.org/wordprocessingml/2006/main".
+  Definition ex_ns : list (option str * str) := [(Some s_w, ex_U)].
+  Definition ex_el (l : String.string) (tx : option String.string) (ks : list rnode) : rnode :=
+    RE (Some s_w) (Some ex_U) (s2l l) ex_ns []
+       (match tx with Some s => Some (s2l s) | None => None end) None ks.
+  (* <w:r><w:t>hello world</w:t><w:tab/><w:t>world</w:t></w:r> *)
+  Definition ex_run : anode :=
+    view (ex_el "r" None [ex_el "t" (Some "hello world") []; ex_el "tab" None [];
+                          ex_el "t" (Some "world") []]).
+  (* <w:p> that run </w:p> *)
+  Definition ex_par : anode :=
+    view (ex_el "p" None [ex_el "r" None [ex_el "t" (Some "hello world") []; ex_el "tab" None [];
+                                          ex_el "t" (Some "world") []]]).
+  Definition ex_old : str := s2l "world".
+  Definition ex_new : str := s2l "there" ++ [10] ++ s2l "you".
+  Definition ex_pairs : list (str * str) := [(ex_old, ex_new); (s2l "zzz", s2l "q")].
+  Definition ex_env : env := {| env_x2h := []; env_rels := []; env_dup := false; env_numtbl := [] |}.
+  (* "hello there\nyou\tthere\nyou" *)
+  Definition ex_text : str :=
+    s2l "hello there" ++ [10] ++ s2l "you" ++ [9] ++ s2l "there" ++ [10] ++ s2l "you".
+End Examples.
+
+(* the example satisfies every hypothesis of emit_replace_nodewise and of
+   emit_replace_text_leaves *)
+Example ex_hypotheses :
+  plain_inline ex_run = true /\ no_link ex_run = true /\ repl_ok ex_old ex_run = true
+  /\ text_leaves ex_run = true /\ wf_pr ex_run = true /\ wuri_at_hits ex_old ex_run = true
+  /\ needle_free ex_old ex_run = false /\ simple_par ex_par = true.
+Proof. vm_compute. repeat split. Qed.
+
+(* both sides of item 2, computed: w:t, w:br, w:t, w:tab, w:t, w:br, w:t *)
+Example ex_nodewise :
+  exists ns, replace_node ex_old ex_new ex_run = Ok ns
+    /\ length (concat (map kids_of ns)) = 7%nat
+    /\ (exists ts, emit_kids ex_env [] ns 0 = Ok ts /\ emit_repl ex_env ex_old ex_new ex_run = Ok ts
+                   /\ render false ts = ex_text).
+Proof.
+  eexists. split; [vm_compute; reflexivity|]. split; [vm_compute; reflexivity|].
+  eexists. split; [vm_compute; reflexivity|]. split; vm_compute; reflexivity.
+Qed.
+
+(* the whole paragraph under replace_all with both pairs: the second needle
+   occurs nowhere *)
+Example ex_replace_all :
+  exists p', replace_all ex_pairs ex_par = Ok p'
+    /\ replace_all [(ex_old, ex_new)] ex_par = Ok p'
+    /\ simple_par p' = true
+    /\ (exists ts, emit_kids ex_env [] (kids_of p') 0 = Ok ts
+                   /\ emit_repl_kids ex_env ex_old ex_new (kids_of ex_par) = Ok ts
+                   /\ render false ts = ex_text)
+    /\ itertext p' = s2l "hello thereyouthereyou".
+Proof.
+  eexists. split; [vm_compute; reflexivity|]. split; [vm_compute; reflexivity|].
+  split; [vm_compute; reflexivity|]. split.
+  - eexists. split; [vm_compute; reflexivity|]. split; vm_compute; reflexivity.
+  - vm_compute. reflexivity.
+Qed.
